@@ -93,7 +93,7 @@ def check_export(adoc):
     return bad
 
 
-LINK = re.compile(r'<a\b[^>]*\bhref="([^"]+)"[^>]*>(.*?)</a>', re.S)
+LINK = re.compile(r"""<a\b[^>]*\bhref=(?:"([^"]+)"|'([^']+)')[^>]*>(.*?)</a>""", re.S)
 
 
 def check_b_links(bdoc, adoc, must_be_external, must_be_local, no_external_on=()):
@@ -106,7 +106,7 @@ def check_b_links(bdoc, adoc, must_be_external, must_be_local, no_external_on=()
             p = os.path.join(d, f)
             text = open(p, encoding="utf-8", errors="replace").read()
             for m in LINK.finditer(text):
-                url, label = m.group(1), re.sub(r"<[^>]+>", "", m.group(2)).strip()
+                url, label = m.group(1) or m.group(2), re.sub(r"<[^>]+>", "", m.group(3)).strip()
                 if site.EXTERNAL.match(url) or url.startswith("#"):
                     continue
                 u = urllib.parse.urlsplit(url)
@@ -261,6 +261,38 @@ def remote_rebasing():
     return bad
 
 
+EXT_A = {"src/a.f90": ("module a_mod\n  !! A\n  implicit none\n  private\n  public :: a_abs, a_iface, a_base\n  abstract interface\n    subroutine a_iface(self)\n      !! iface doc\n      import :: a_abs\n"
+                       "      class(a_abs), intent(inout) :: self\n    end subroutine a_iface\n  end interface\n  type, abstract :: a_abs\n    !! abstract type\n  contains\n    procedure(a_iface), deferred :: run\n"
+                       "  end type a_abs\n  type :: a_base\n    !! base type\n    integer :: n\n  contains\n    procedure :: init\n    procedure :: show\n  end type a_base\ncontains\n"
+                       "  subroutine init(self)\n    class(a_base) :: self\n  end subroutine init\n  subroutine show(self)\n    class(a_base) :: self\n  end subroutine show\nend module a_mod\n")}
+EXT_B = {"src/b.f90": ("module b_mod\n  !! B\n  use a_mod\n  implicit none\n  type, abstract :: b_abs\n    !! abstract in B with a deferred binding to A's interface\n  contains\n"
+                       "    procedure(a_iface), deferred :: step\n  end type b_abs\n  type, extends(a_base) :: b_child\n    !! extends A's type\n    integer :: extra\n  contains\n    procedure :: more\n"
+                       "  end type b_child\ncontains\n  subroutine more(self)\n    class(b_child) :: self\n  end subroutine more\nend module b_mod\n")}
+
+
+def external_entities_in_declarations():
+    """B declares a deferred binding through an abstract interface of A and extends a type of A that has bindings; built with every `sort` option: the run succeeds and
+    every link of B into A exists there"""
+    bad, n = [], 0
+    os.makedirs(realrun.TMPROOT, exist_ok=True)
+    for sort in ("src", "alpha", "permission", "permission-alpha", "type", "type-alpha"):
+        sb = tempfile.mkdtemp(dir=realrun.TMPROOT)
+        try:
+            with site.site(EXT_A, META_A, sandbox=sb, proj="A") as (pa, sa):
+                if not sa.startswith("ok"):
+                    return [f"building A failed: {sa}"], 0
+                with site.site(EXT_B, META_B + f"sort: {sort}\n", sandbox=sb, proj="B") as (pb, sbst):
+                    if not sbst.startswith("ok"):
+                        bad.append(f"sort: {sort}: building B against A failed: {sbst[:200]}")
+                        continue
+                    b2, k = check_b_links(os.path.join(pb, "doc"), os.path.join(pa, "doc"), {"a_iface": "interface/a_iface.html", "a_base": "type/a_base.html"}, {"b_abs", "b_child", "more"})
+                    bad += [f"sort: {sort}: {x}" for x in b2]
+                    n += k
+        finally:
+            shutil.rmtree(sb, ignore_errors=True)
+    return bad, n
+
+
 def search(parts=("end_to_end", "broken", "absolute", "remote")):
     for part in parts:
         if part == "end_to_end":
@@ -270,10 +302,12 @@ def search(parts=("end_to_end", "broken", "absolute", "remote")):
             bad = broken_descriptions()
         elif part == "absolute":
             bad = absolute_local_path()
+        elif part == "declarations":
+            bad, _ = external_entities_in_declarations()
         else:
             bad = remote_rebasing()
         if bad:
-            return {"confirmed": True, "input": {"scenario": part, "A": A_FILES, "B": B_FILES}, "actual": bad[:6],
+            return {"confirmed": True, "input": {"scenario": part, "A": EXT_A if part == "declarations" else A_FILES, "B": EXT_B if part == "declarations" else B_FILES}, "actual": bad[:6],
                     "expected": "links into A exist and name the entity; B's own entities win; a bad description costs only the links",
                     "how": "real FORD runs: A with externalize, then B with external: liba = <A's output>"}
     return None
